@@ -178,6 +178,12 @@ package main
 //@   at call NewEncoder: ghost libenc = ref(result)
 //@   before call processAttack: assert [results-written-by-the-library-encoder-itself] ref(arg2) == libenc
 //@   forbid [only-the-signal-pump-stops-the-attack] call Stop
+//@   forbid [targets-are-drawn-only-by-the-attack-and-the-eager-reader] call tr
+//@   ghost dialWrapped bool = false
+//@   at call UnixSocket: ghost dialWrapped = true
+//@   at call DNSCaching: ghost dialWrapped = true
+//@   at call ConnectTo: ghost dialWrapped = true
+//@   before call KeepAlive: assert [keep-alive-is-configured-before-the-dial-wrappers-it-would-discard] !dialWrapped
 //@   before call NewJSONTargeter: assert [default-body-and-headers-forwarded] (opts.bodyf != "" ==> bodyRead) && arg1 == body && arg2 == old(opts.headers.Header)
 //@   before call NewHTTPTargeter: assert [default-body-and-headers-forwarded] (opts.bodyf != "" ==> bodyRead) && arg1 == body && arg2 == old(opts.headers.Header)
 //@   before call Redirects: assert [flag-forwarded-unchanged] arg0 == old(opts.redirects)
